@@ -293,6 +293,27 @@ Theorem c13_delete_shifts_at_any_depth (p : list expr) (i i' : Z) (es' : list ex
 Proof. intros Hp. exact (delete_shift_path p Hp i i' es' n v). Qed.
 Print Assumptions c13_delete_shifts_at_any_depth.
 
+(* the insert form "path[i+]..." at any depth: what was readable below subscript i' of the list is readable,
+   unchanged, below i' (i' < i) or i' + 1 (otherwise), for every finishing action; a refused subscript
+   (INT_MAX) or one past the end (plain extension) moves nothing *)
+Theorem c13_insert_shifts_at_any_depth {A} (p : list expr) (i i' : Z) (es' : list expr)
+        (fin : node -> node * A) (n v : node) :
+  Forall plain_step p -> (0 <= i)%Z ->
+  descend_get (p ++ E_LIST_ELEMENT i' :: es') n = inr v ->
+  descend_get (p ++ E_LIST_ELEMENT (if (i' <? i)%Z then i' else i' + 1) :: es')
+              (fst (descend_set (p ++ [E_LIST_INSERT i]) fin n)) = inr v.
+Proof. intros Hp. exact (insert_shift_path p Hp i i' es' fin n v). Qed.
+Print Assumptions c13_insert_shifts_at_any_depth.
+
+Theorem c13_insert_shifts_at_any_depth_example :
+  let n := NMap [([97%N], NList [NScalar [120%N]; NScalar [121%N]] 8)] in
+  let n' := fst (descend_set [E_MAP_ELEMENT [97%N]; E_LIST_INSERT 1] (fun _ => (NScalar [122%N], tt)) n) in
+  descend_get [E_MAP_ELEMENT [97%N]; E_LIST_ELEMENT 0] n' = inr (NScalar [120%N]) /\
+  descend_get [E_MAP_ELEMENT [97%N]; E_LIST_ELEMENT 1] n' = inr (NScalar [122%N]) /\
+  descend_get [E_MAP_ELEMENT [97%N]; E_LIST_ELEMENT 2] n' = inr (NScalar [121%N]).
+Proof. repeat split; reflexivity. Qed.
+Print Assumptions c13_insert_shifts_at_any_depth_example.
+
 (* delete removes the entry and shifts the higher indices down by one *)
 Theorem c13_delete_shifts (i : nat) (vec : list node) (al j : nat) :
   (i < length vec)%nat ->
